@@ -11,6 +11,7 @@ import (
 	"go/ast"
 	"go/token"
 	"go/types"
+	"golang.org/x/tools/go/ssa"
 	"sort"
 	"strings"
 )
@@ -652,7 +653,31 @@ func checkC14(res *Result) {
 			}
 			return true
 		})
-		res.check(hasDefaultErr, "C14-R3", c.name, relPos(S.Fset, fd.Pos()), "a function of any other shape is rejected with an error", "no default case returning (nil, error)")
+		if !hasDefaultErr {
+			// not in the statement form above (the validation was merged through a variable, say):
+			// follow every path that starts where the last type assertion fails; each must end in
+			// a return whose error is known non-nil
+			if sp := loadStreamsRootSSA(); sp != nil {
+				if fn := sp.Func(c.name); fn != nil {
+					edges := typeSwitchDefaultEdges(fn, 10)
+					okAll := len(edges) > 0
+					for _, e := range edges {
+						done := walkFromEdge(e[0], e[1], func(r *ssa.Return, env pathEnv) bool {
+							if len(r.Results) == 0 || nilnessOf(r.Results[len(r.Results)-1], env, 0) != nlNonNil {
+								okAll = false
+								return false
+							}
+							return true
+						})
+						if !done {
+							okAll = false
+						}
+					}
+					hasDefaultErr = okAll
+				}
+			}
+		}
+		res.check(hasDefaultErr, "C14-R3", c.name, relPos(S.Fset, fd.Pos()), "a function of any other shape is rejected with an error", "a value that matches none of the accepted signatures can leave the constructor without an error")
 		var bad []string
 		for n := range typed {
 			if seen[n] != 1 {
